@@ -561,3 +561,268 @@ Section FrontEnd.
     - apply RO_delete_common; [exact HR|exact Fa].
   Qed.
 End FrontEnd.
+
+(* ---------------------------------------------------------------- transactions, commit, histories *)
+Section Txns.
+  Variable c : cfg.
+
+  Definition RTo (t : txn (S:=over)) (zt : txn (S:=version)) : Prop :=
+    RO (t_st t) (t_st zt) /\ t_ro t = t_ro zt /\ t_ended t = t_ended zt.
+
+  (* a published object-level zone and a published value-level zone *)
+  Definition RPo (oz : ozone) (z : nmap) : Prop := RO (o_begin oz false) (mkVer z []).
+
+  Lemma RO_write f g t zt :
+    RTo t zt -> (forall v zv, RO v zv -> res_rel RO (f v) (g zv)) -> res_rel RTo (o_write f t) (hl_write g zt).
+  Proof.
+    intros (HR & Hro & Hen) Hf. unfold o_write, hl_write. rewrite Hro, Hen.
+    destruct (t_ended zt) eqn:Een; [reflexivity|]. destruct (t_ro zt) eqn:Ero; [reflexivity|].
+    specialize (Hf _ _ HR). destruct (f (t_st t)), (g (t_st zt)); cbn in *; try contradiction; auto.
+    unfold RTo, with_st. cbn [t_st t_ro t_ended]. split; [exact Hf|split; congruence].
+  Qed.
+
+  Lemma RO_count v zv : RO v zv ->
+    (zlen (ov_nodes v), fold_right (fun kn acc => zlen (onode_of v (snd kn)) + acc) 0 (ov_nodes v)) = s_count (zstore c) zv.
+  Proof.
+    intros ((Hn & _) & _). cbn [s_count zstore]. rewrite Hn. unfold deref. cbn [fst snd hv_heap hv_nodes ov_deref].
+    f_equal; [unfold zlen; rewrite map_length; reflexivity|].
+    induction (ov_nodes v) as [|[k nid] m IH]; cbn [map fold_right fst snd]; [reflexivity|].
+    rewrite IH. f_equal. pose proof (hnode_deref v nid) as H. unfold ov_deref in H. cbn [hv_heap] in H.
+    rewrite H. unfold zlen, nval. rewrite map_length. reflexivity.
+  Qed.
+
+  Lemma RO_changed v zv : RO v zv -> o_changed v = s_changed (zstore c) zv.
+  Proof. intros ((_ & Hc & _) & _). unfold o_changed. cbn [s_changed zstore]. rewrite Hc. reflexivity. Qed.
+
+  (* ImmutableVersion wrapping: new objects, same content *)
+  Lemma wrap_spec rh ids : forall rh' ids',
+    rwf rh -> Forall (fun i => (i < length rh)%nat) ids -> o_wrap_rdatasets rh ids = (rh', ids') ->
+    agree_below rh rh' /\ rwf rh' /\ nval rh' ids' = nval rh ids /\ Forall (fun i => (i < length rh')%nat) ids'.
+  Proof.
+    revert rh. induction ids as [|x ids IH]; intros rh rh' ids' W F; cbn [o_wrap_rdatasets].
+    - intros H; inversion H; subst. repeat split; auto using agree_refl.
+    - inversion F as [|? ? Fx Fr]; subst.
+      pose proof (ralloc_agree rh (rval rh x) true) as A1. pose proof (ralloc_val rh (rval rh x) true) as (V1 & _ & B1 & _).
+      pose proof (ralloc_rwf rh (rval rh x) true W (rwf_val rh x W Fx)) as W1.
+      destruct (ralloc rh (rval rh x) true) as [rh1 j]. cbn [fst snd] in *.
+      destruct (o_wrap_rdatasets rh1 ids) as [rh2 js] eqn:E. intros H. injection H as H1 H2. subst rh' ids'.
+      assert (Forall (fun i => (i < length rh1)%nat) ids) as Fr1.
+      { eapply Forall_impl; [|exact Fr]. cbn. destruct A1. intros; lia. }
+      destruct (IH rh1 rh2 js W1 Fr1 E) as (A2 & W2 & V2 & F2).
+      split; [eapply agree_trans; eauto|]. split; [exact W2|]. split.
+      + unfold nval in *. cbn [map]. rewrite V2. f_equal.
+        * destruct (rval_agree rh1 rh2 j A2 B1) as [-> _]. exact V1.
+        * apply map_ext_in. intros i Hi. eapply Forall_forall in Fr; eauto. apply (rval_agree rh rh1 i A1 Fr).
+      + constructor; [destruct A2; lia|exact F2].
+  Qed.
+
+  Lemma RO_strip v zv : RO v zv -> RO (mkOver (ov_rh v) (ov_nh v) (ov_nodes v) []) (mkVer (v_nodes zv) []).
+  Proof. intros ((Hn & _ & Hi & Hd) & H2 & H3). split; [split; [exact Hn|split; [reflexivity|split; assumption]]|split; assumption]. Qed.
+
+  Lemma make_immutable_RPo names : forall rh nh m z,
+    RPo (rh, nh, m) z -> RPo (o_make_immutable names (rh, nh, m)) z.
+  Proof.
+    induction names as [|k names IH]; intros rh nh m z HP; cbn [o_make_immutable]; [exact HP|].
+    destruct (amap_get m k) as [nid|] eqn:G; [|apply IH; exact HP].
+    destruct (nth nid nh []) as [|x ids] eqn:En; [apply IH; exact HP|].
+    destruct HP as ((Hn & Hc & Hi & Hd) & H2 & H3). cbn [o_begin ov_rh ov_nh ov_nodes ov_changed ov_deref hv_heap hv_nodes v_nodes v_changed] in *.
+    destruct (o_wrap_rdatasets rh (x :: ids)) as [rh1 ids'] eqn:Ew.
+    assert (Forall (fun i => (i < length rh)%nat) (x :: ids)) as Fx by (rewrite <- En; apply rids_ok_nth; exact H2).
+    destruct (wrap_spec rh (x :: ids) rh1 ids' H3 Fx Ew) as (A1 & W1 & V1 & F1).
+    apply IH. split; [split; [|split; [reflexivity|split]]|split].
+    - (* same content *)
+      cbn [o_begin ov_rh ov_nh ov_nodes ov_changed ov_deref hv_heap hv_nodes v_nodes].
+      rewrite Hn. rewrite map_app. cbn [map]. rewrite (heap_agree rh rh1 nh A1 H2).
+      rewrite deref_set. rewrite <- (map_length (nval rh) nh), hnode_app_new, V1, <- En.
+      rewrite deref_app by exact Hi.
+      (* writing back the value that is already there *)
+      assert (map_get (deref (map (nval rh) nh, m)) k = Some (nval rh (nth nid nh []))) as Gk.
+      { rewrite deref_get, G. unfold hnode. change (@nil rds) with (nval rh []). rewrite map_nth. reflexivity. }
+      symmetry. apply map_set_same. exact Gk.
+    - cbn [o_begin ov_rh ov_nh ov_nodes ov_deref hv_heap hv_nodes]. rewrite map_app. cbn [map].
+      rewrite (heap_agree rh rh1 nh A1 H2). rewrite <- (map_length (nval rh) nh). apply ids_ok_set. exact Hi.
+    - cbn [o_begin ov_nodes ov_deref hv_nodes]. apply nodup_amap_set; [exact Hd|].
+      rewrite <- (map_length (nval rh) nh). apply fresh_not_in. exact Hi.
+    - cbn [o_begin ov_rh ov_nh]. apply rids_ok_app; [eapply rids_ok_agree; eauto|exact F1].
+    - cbn [o_begin ov_rh]. exact W1.
+  Qed.
+
+  Lemma RO_publish v zv : RO v zv -> RPo (o_publish c v) (s_publish (zstore c) zv).
+  Proof.
+    intros HR. pose proof (RO_strip v zv HR) as HS. unfold o_publish. cbn [s_publish zstore].
+    destruct (c_kind c =? 0); [exact HS|]. apply make_immutable_RPo. exact HS.
+  Qed.
+
+  Lemma RPo_begin oz z b : RPo oz z -> RO (o_begin oz b) (s_begin (zstore c) z b).
+  Proof.
+    intros HP. destruct oz as [[rh nh] m]. cbn [s_begin zstore o_begin]. destruct b; [|exact HP].
+    destruct HP as (_ & H2 & H3). cbn [o_begin ov_rh ov_nh] in *.
+    split; [|split; assumption]. split; [reflexivity|split; [reflexivity|split; [intros i []|constructor]]].
+  Qed.
+
+  Definition REo (x : ozone * txn (S:=over)) (y : nmap * txn (S:=version)) : Prop := RPo (fst x) (fst y) /\ RTo (snd x) (snd y).
+
+  Lemma RO_end commit oz z t zt : RPo oz z -> RTo t zt -> res_rel REo (o_end c commit oz t) (hl_end (zstore c) commit z zt).
+  Proof.
+    intros HP (HR & Hro & Hen). unfold o_end, hl_end. rewrite Hen, Hro, (RO_changed _ _ HR).
+    destruct (t_ended zt); [reflexivity|]. cbn [res_rel]. split; cbn [fst snd].
+    - destruct (negb (t_ro zt) && commit && s_changed (zstore c) (t_st zt)); [apply RO_publish; exact HR|exact HP].
+    - unfold RTo. cbn. auto.
+  Qed.
+
+  Definition op_items_ok (o : op) : Prop := op_items_wf o.
+
+  Definition RStepo (x : out * ozone * txn (S:=over)) (y : out * nmap * txn (S:=version)) : Prop :=
+    fst (fst x) = fst (fst y) /\ RPo (snd (fst x)) (snd (fst y)) /\ RTo (snd x) (snd y).
+
+  Lemma RO_update_serial value rel nm t zt :
+    RTo t zt -> res_rel RTo (o_update_serial c value rel nm t) (hl_update_serial (zstore c) c value rel nm zt).
+  Proof.
+    intros HT. pose proof HT as (HR & Hro & Hen). unfold o_update_serial, hl_update_serial. rewrite Hen.
+    destruct (t_ended zt); [reflexivity|]. destruct (value <? 0); [reflexivity|].
+    destruct (match nm with None => Ok NameM.empty | Some a => name_of_arg a end) as [n| |]; cbn [bind]; try reflexivity.
+    cbn [s_get zstore]. rewrite <- (RO_get c (t_st t) (t_st zt) n tSOA 0 HR).
+    destruct (o_get_rdataset c (t_st t) n tSOA 0) as [ex| |]; cbn [bind res_map]; try reflexivity.
+    destruct ex as [e|]; [|reflexivity].
+    destruct (r_items (rval (ov_rh (t_st t)) e)) as [|[body serial] ?]; [reflexivity|].
+    destruct (if rel then serial_add serial value else Ok (value mod 4294967296)); cbn [bind]; try reflexivity.
+    apply RO_write; [exact HT|]. intros v zv Hv. apply RO_add; [exact Hv|].
+    constructor; [exact Logic.I|constructor; [|constructor]]. cbn. split; cbn; [repeat constructor; intros []|intros _; lia].
+  Qed.
+
+  Lemma RO_step o oz z t zt :
+    op_items_wf o -> RPo oz z -> RTo t zt -> res_rel RStepo (o_step c o oz t) (step (zstore c) c o z zt).
+  Proof.
+    intros Wo HP HT. pose proof HT as (HR & Hro & Hen).
+    assert (forall (x : res (txn (S:=over))) (y : res (txn (S:=version))), res_rel RTo x y ->
+              res_rel RStepo (do t' <- x; Ok (RNone, oz, t')) (do t' <- y; Ok (RNone, z, t'))) as Kw.
+    { intros x y H. destruct x, y; cbn in *; try contradiction; auto. unfold RStepo. cbn. auto. }
+    assert (forall commit, res_rel RStepo (do x <- o_end c commit oz t; Ok (RNone, fst x, snd x))
+                                          (do x <- hl_end (zstore c) commit z zt; Ok (RNone, fst x, snd x))) as Ke.
+    { intros commit. pose proof (RO_end commit oz z t zt HP HT) as H.
+      destruct (o_end c commit oz t), (hl_end (zstore c) commit z zt); cbn in *; try contradiction; auto.
+      destruct H. unfold RStepo. cbn. auto. }
+    destruct o; cbn [o_step step op_items_wf] in *.
+    - apply Kw, RO_write; [exact HT|]. intros; apply RO_add; auto.
+    - apply Kw, RO_write; [exact HT|]. intros; apply RO_add; auto.
+    - apply Kw, RO_write; [exact HT|]. intros; apply RO_delete; auto.
+    - apply Kw, RO_write; [exact HT|]. intros; apply RO_delete; auto.
+    - apply Kw, RO_update_serial; auto.
+    - rewrite Hen. destruct (t_ended zt); [reflexivity|].
+      destruct (name_of_arg n) as [n0| |]; cbn [bind]; try reflexivity.
+      destruct (make_type (AInt ty)) as [ty'| |]; cbn [bind]; try reflexivity.
+      destruct (make_type (AInt cov)) as [cov'| |]; cbn [bind]; try reflexivity.
+      cbn [s_get zstore]. rewrite <- (RO_get c (t_st t) (t_st zt) n0 ty' cov' HR).
+      destruct (o_get_rdataset c (t_st t) n0 ty' cov'); cbn [bind res_map]; try reflexivity. unfold RStepo. cbn. auto.
+    - rewrite Hen. destruct (t_ended zt); [reflexivity|].
+      destruct (name_of_arg n) as [n0| |]; cbn [bind]; try reflexivity.
+      cbn [s_exists zstore]. rewrite <- (RO_node c (t_st t) (t_st zt) n0 HR).
+      destruct (o_get_node c (t_st t) n0) as [on| |]; cbn [bind res_map]; try reflexivity.
+      unfold RStepo. cbn. destruct on; auto.
+    - rewrite Hen, Hro, (RO_changed _ _ HR). destruct (t_ended zt); [reflexivity|]. unfold RStepo. cbn. auto.
+    - rewrite Hen. destruct (t_ended zt); [reflexivity|]. rewrite <- (RO_count _ _ HR).
+      unfold RStepo. cbn [res_rel fst snd]. auto.
+    - rewrite Hen. destruct (t_ended zt); [reflexivity|].
+      destruct (name_of_arg n) as [n0| |]; cbn [bind]; try reflexivity.
+      cbn [s_node zstore]. rewrite <- (RO_node c (t_st t) (t_st zt) n0 HR).
+      destruct (o_get_node c (t_st t) n0) as [on| |]; cbn [bind res_map]; try reflexivity.
+      unfold RStepo. cbn. auto.
+    - apply Ke.
+    - apply Ke.
+  Qed.
+
+  Lemma RO_exit clean oz z t zt : RPo oz z -> RTo t zt -> RPo (o_exit c clean oz t) (hl_exit (zstore c) clean z zt).
+  Proof.
+    intros HP HT. unfold o_exit, hl_exit. pose proof (RO_end clean oz z t zt HP HT) as H.
+    destruct (o_end c clean oz t) as [[? ?]| |], (hl_end (zstore c) clean z zt) as [[? ?]| |];
+      cbn in *; try contradiction; auto. destruct H. auto.
+  Qed.
+
+  Definition ROuto (x : list (res out) * ozone) (y : list (res out) * nmap) : Prop := fst x = fst y /\ RPo (snd x) (snd y).
+
+  Lemma RO_run_manual ops : forall oz z t zt,
+    Forall op_items_wf ops -> RPo oz z -> RTo t zt ->
+    ROuto (o_run_manual c ops oz t) (run_manual (zstore c) c ops z zt).
+  Proof.
+    induction ops as [|o ops IH]; intros oz z t zt F HP HT; cbn [o_run_manual run_manual].
+    - split; [reflexivity|]. apply RO_exit; auto.
+    - inversion F as [|? ? Fo Fr]; subst.
+      pose proof (RO_step o oz z t zt Fo HP HT) as H.
+      destruct (o_step c o oz t) as [[[x1 z1'] t1']|e1|e1], (step (zstore c) c o z zt) as [[[x2 z2'] t2']|e2|e2];
+        cbn in H; try contradiction.
+      + destruct H as (Ho & HP' & HT'). cbn in Ho, HP', HT'. subst x2.
+        specialize (IH z1' z2' t1' t2' Fr HP' HT').
+        destruct (o_run_manual c ops z1' t1'), (run_manual (zstore c) c ops z2' t2'). destruct IH as [I1 I2].
+        cbn in *. split; cbn; [congruence|exact I2].
+      + subst e2. specialize (IH oz z t zt Fr HP HT).
+        destruct (o_run_manual c ops oz t), (run_manual (zstore c) c ops z zt). destruct IH as [I1 I2].
+        cbn in *. split; cbn; [congruence|exact I2].
+      + subst e2. specialize (IH oz z t zt Fr HP HT).
+        destruct (o_run_manual c ops oz t), (run_manual (zstore c) c ops z zt). destruct IH as [I1 I2].
+        cbn in *. split; cbn; [congruence|exact I2].
+  Qed.
+
+  Lemma RO_run_with ops : forall fault oz z t zt,
+    Forall op_items_wf ops -> RPo oz z -> RTo t zt ->
+    ROuto (o_run_with c ops fault oz t) (run_with (zstore c) c ops fault z zt).
+  Proof.
+    induction ops as [|o ops IH]; intros fault oz z t zt F HP HT.
+    - destruct fault as [[|k]|]; cbn [o_run_with run_with]; (split; [reflexivity|apply RO_exit; auto]).
+    - inversion F as [|? ? Fo Fr]; subst.
+      destruct fault as [[|k]|]; cbn [o_run_with run_with].
+      + split; [reflexivity|apply RO_exit; auto].
+      + pose proof (RO_step o oz z t zt Fo HP HT) as H.
+        destruct (o_step c o oz t) as [[[x1 z1'] t1']|e1|e1], (step (zstore c) c o z zt) as [[[x2 z2'] t2']|e2|e2];
+          cbn in H; try contradiction.
+        * destruct H as (Ho & HP' & HT'). cbn in Ho, HP', HT'. subst x2.
+          specialize (IH (Some k) z1' z2' t1' t2' Fr HP' HT').
+          destruct (o_run_with c ops (Some k) z1' t1'), (run_with (zstore c) c ops (Some k) z2' t2'). destruct IH as [I1 I2].
+          cbn in *. split; cbn; [congruence|exact I2].
+        * subst e2. split; [reflexivity|apply RO_exit; auto].
+        * subst e2. split; [reflexivity|apply RO_exit; auto].
+      + pose proof (RO_step o oz z t zt Fo HP HT) as H.
+        destruct (o_step c o oz t) as [[[x1 z1'] t1']|e1|e1], (step (zstore c) c o z zt) as [[[x2 z2'] t2']|e2|e2];
+          cbn in H; try contradiction.
+        * destruct H as (Ho & HP' & HT'). cbn in Ho, HP', HT'. subst x2.
+          specialize (IH None z1' z2' t1' t2' Fr HP' HT').
+          destruct (o_run_with c ops None z1' t1'), (run_with (zstore c) c ops None z2' t2'). destruct IH as [I1 I2].
+          cbn in *. split; cbn; [congruence|exact I2].
+        * subst e2. split; [reflexivity|apply RO_exit; auto].
+        * subst e2. split; [reflexivity|apply RO_exit; auto].
+  Qed.
+
+  Lemma RO_open mode oz z : RPo oz z -> RTo (o_open mode oz) (open_txn (zstore c) mode z).
+  Proof.
+    intros HP. unfold o_open, open_txn. destruct (mode =? 2); unfold RTo; cbn [t_st t_ro t_ended];
+      (split; [apply RPo_begin; exact HP|auto]).
+  Qed.
+
+  (* Every history: the rdataset-object model and the value-level model give the same result for every call
+     (iterate calls included), and the published objects dereference to the published value. *)
+  Theorem obj_refines_value h : forall oz z,
+    Forall spec_items_wf h -> RPo oz z ->
+    Forall2 ROuto (obj_hist c h oz) (impl_hist c h z).
+  Proof.
+    unfold impl_hist. induction h as [|x h IH]; intros oz z F HP; cbn [obj_hist run_hist]; [constructor|].
+    inversion F as [|? ? Fx Fh]; subst.
+    assert (ROuto (o_run_txn c x oz) (run_txn (zstore c) c x z)) as H.
+    { unfold o_run_txn, run_txn. destruct (x_style x =? 1).
+      - apply RO_run_with; auto. apply RO_open; exact HP.
+      - apply RO_run_manual; auto. apply RO_open; exact HP. }
+    destruct (o_run_txn c x oz) as [o1 z1'], (run_txn (zstore c) c x z) as [o2 z2'].
+    constructor; [exact H|]. apply IH; [exact Fh|]. destruct H. auto.
+  Qed.
+End Txns.
+
+Lemma RPo_empty : RPo ([], [], []) [].
+Proof.
+  split; [split; [reflexivity|split; [reflexivity|split; [intros i []|constructor]]]|split; constructor].
+Qed.
+
+(* what the relation says to an observer: the published objects dereference to the published value *)
+Lemma RPo_oderef oz z : RPo oz z -> z = oderef oz.
+Proof.
+  destruct oz as [[rh nh] m]. intros ((Hn & _) & _). cbn [o_begin ov_deref ov_rh ov_nh ov_nodes v_nodes hv_heap hv_nodes] in Hn.
+  rewrite Hn. unfold deref, oderef. cbn [fst snd]. apply map_ext. intros [k nid]. cbn [fst snd]. f_equal.
+  unfold hnode, nval. change (@nil rds) with (map (rval rh) []). apply map_nth.
+Qed.
